@@ -5,6 +5,7 @@ Parts (each in harness/props/c19_<part>.py, all driven from here):
   affine  (T) canonicalize_affine.py                   Gen/CanonAffine.v (translator/py2coq.py) + (H) Model/XdslAffine.v
   stride  (T) StridePattern.canonicalize                Gen/StrideCanon.v + semantics Model/C19Stride.v
   transform (H) AffineTransform, AccessPattern.canonicalize/inner_dims   Model/C19Transform.v
+  text    (H) token-level print/parse of both attributes               Model/C19Text.v
   attrs   (L2) StreamerConfigurationAttr / StridePattern print -> parse
 Every part exposes  l1_prepare(ctx) -> (coq texts, finish(results) -> [disagreement])   l2(ctx, deep) -> [failure]   replay(ctx, failure) -> [fail].
 """
@@ -15,9 +16,9 @@ import importlib
 import vlib
 
 PROPERTY = "C19"
-PART_NAMES = ["pack", "affine", "stride", "transform", "attrs"]
+PART_NAMES = ["pack", "affine", "stride", "transform", "attrs", "text"]
 MODEL_TARGETS = ["Model/C19Pack.vo", "Model/PyLib.vo", "Model/XdslAffine.vo", "Gen/CanonAffine.vo",
-                 "Model/C19Stride.vo", "Gen/StrideCanon.vo", "Model/C19Transform.vo"]
+                 "Model/C19Stride.vo", "Gen/StrideCanon.vo", "Model/C19Transform.vo", "Model/C19Text.vo"]
 RULE = ("pack: 0-9 (value, offset) pairs, each a Python int (edge values of the width, negative, out of range) or one of 4 "
         "pre-existing SSA values/ops with arbitrary run-time contents, dtype in {8,16,32,64}, length mismatches; non-trivial = "
         ">= 2 fields. affine: random trees of depth <= 4 over d0-d2, s0, constants {0,+-1,2,3,4,5,8,16,-2,-3} and "
